@@ -40,8 +40,20 @@ def compress(data, typesize=8, clevel=9, shuffle=SHUFFLE, cname='blosclz', **kw)
             + comp + struct.pack('<I', zlib.crc32(raw)))
 
 
+def mini_frame(raw):
+    """Tiny self-checking frame (3 + len(raw) bytes) used by exhaustive chunk-composition checks."""
+    raw = bytes(raw)
+    assert len(raw) < 256
+    return b'm' + bytes([len(raw)]) + raw + bytes([(sum(raw) + len(raw) + 0x5C) & 0xFF])
+
+
 def _parse(buf):
     b = bytes(memoryview(buf).cast('B')) if not isinstance(buf, bytes) else buf
+    if len(b) >= 3 and b[:1] == b'm':
+        n = b[1]
+        if len(b) != 3 + n or b[-1] != (sum(b[2:-1]) + n + 0x5C) & 0xFF:
+            raise ValueError(f'blosc shim: bad mini frame {b!r}')
+        return b[2:-1]
     if len(b) < 20 or b[:4] != _MAGIC:
         raise ValueError(f'blosc shim: not a frame start ({b[:8]!r}, len {len(b)})')
     ncomp, nraw, ts = struct.unpack('<III', b[4:16])
